@@ -13,7 +13,7 @@ import pathlib
 import stat as stat_mod
 import sys
 import tarfile
-from bisect import bisect_right
+from bisect import bisect_left, bisect_right
 
 from hvsim.model import pattern
 
@@ -67,8 +67,12 @@ class SimFile:
     def _put(self, start: int, end: int, src) -> None:
         if end <= start:
             return
+        starts, ext = self._starts, self._ext
+        i = bisect_right(starts, start) - 1
+        lo = i if (i >= 0 and ext[i][1] > start) else i + 1
+        hi = bisect_left(starts, end)
         new = []
-        for a, b, s in self._ext:
+        for a, b, s in ext[lo:hi]:
             if b <= start or a >= end:
                 new.append((a, b, s))
             else:
@@ -78,9 +82,10 @@ class SimFile:
                     new.append((end, b, _Shift(s, end - a)))
         if src is not None:
             new.append((start, end, src))
-        new.sort(key=lambda e: e[0])
-        self._ext = new
-        self._starts = [e[0] for e in new]
+        if len(new) > 1:
+            new.sort(key=lambda e: e[0])
+        ext[lo:hi] = new
+        starts[lo:hi] = [e[0] for e in new]
         if end > self.length:
             self.length = end
 
